@@ -105,6 +105,22 @@ func devMain(args []string) int {
 			return 2
 		}
 		return 0
+	case "sig":
+		st, err := sigStage(10*time.Minute, 300)
+		if st != nil {
+			fmt.Println(st.summary())
+			for _, e := range st.TLC.Errors {
+				fmt.Println("TLC:", e)
+			}
+			for _, e := range st.Examples {
+				fmt.Println("---", e.Kind, e.Detail)
+			}
+		}
+		if err != nil {
+			fmt.Println("error:", err)
+			return 2
+		}
+		return 0
 	case "cat":
 		fs := flag.NewFlagSet("cat", flag.ExitOnError)
 		seed := fs.Int64("seed", 1, "")
